@@ -204,7 +204,7 @@ func RunHistory(r *rand.Rand, cfg *HistoryConfig, d *Dict, tw *TraceWriter, next
 			op.Sp = append([]string{".."}, op.Sp...)
 		}
 		if cfg.Climb && r.Intn(25) == 0 {
-			op.Sp = append(append([]string{cfg.Names[0], "..", ".."}, op.Sp...))
+			op.Sp = append([]string{cfg.Names[0], "..", ".."}, op.Sp...)
 		}
 		switch op.Name {
 		case "copy", "copyfile", "copydir":
